@@ -1,1 +1,26 @@
-fn main() {}
+//! Conformance harness for the handshake / framing properties (C14, C16, C17).
+//! Usage: hs <command> [args...]; see each module.  Rust only drives and observes; every verdict is
+//! computed by TLC from the recorded ndjson.
+mod drive;
+mod framing;
+mod model;
+mod sock;
+
+fn main() {
+    // panics inside the code under test are data: keep them quiet, they are reported per case
+    std::panic::set_hook(Box::new(|_| {}));
+    let args: Vec<String> = std::env::args().collect();
+    if args.len() < 2 {
+        eprintln!("usage: hs <command> ...");
+        std::process::exit(2);
+    }
+    let rest = &args[2..];
+    match args[1].as_str() {
+        "framing-enum" => framing::cmd_enum(rest),
+        "framing-rand" => framing::cmd_rand(rest),
+        other => {
+            eprintln!("unknown command {other}");
+            std::process::exit(2);
+        }
+    }
+}
